@@ -3,8 +3,10 @@ package smt
 
 import (
 	"bufio"
+	"context"
 	"fmt"
 	"io"
+	"os"
 	"os/exec"
 	"strconv"
 	"strings"
@@ -43,6 +45,15 @@ type Solver struct {
 	scoped    []int32 // term ids defined inside kept query scopes
 	scopedA   []int32
 	marks     [][2]int
+	live      []string // commands that are currently in effect (popped scopes removed)
+	liveMarks []int
+	liveVars  []*term.T
+	varMarks  []int
+	FastMs    int // first-attempt timeout of the incremental solver
+	Escalated int
+	EscWins   map[string]int
+	EscTime   time.Duration
+	pinned    bool
 }
 
 func New(kind string, timeoutMs int) (*Solver, error) {
@@ -71,10 +82,14 @@ func New(kind string, timeoutMs int) (*Solver, error) {
 	}
 	s := &Solver{Kind: kind, cmd: cmd, in: in, out: bufio.NewReaderSize(outp, 1<<16), TimeoutMs: timeoutMs,
 		defined: map[int32]bool{}, declaredA: map[int32]bool{}}
+	s.FastMs = timeoutMs
+	if kind == "z3" {
+		s.FastMs = 2500
+	}
 	if kind == "cvc5" {
 		s.send("(set-logic QF_ABV)\n")
 	} else {
-		s.send(fmt.Sprintf("(set-option :timeout %d)\n", timeoutMs))
+		s.send(fmt.Sprintf("(set-option :timeout %d)\n", s.FastMs))
 	}
 	s.send("(set-option :produce-models true)\n")
 	return s, nil
@@ -89,7 +104,33 @@ func (s *Solver) Close() {
 	}
 }
 
+func (s *Solver) record(str string) {
+	for _, ln := range strings.SplitAfter(str, "\n") {
+		if ln == "" {
+			continue
+		}
+		switch {
+		case strings.HasPrefix(ln, "(push"):
+			s.liveMarks = append(s.liveMarks, len(s.live))
+			s.varMarks = append(s.varMarks, len(s.liveVars))
+		case strings.HasPrefix(ln, "(pop"):
+			n := 1
+			fmt.Sscanf(ln, "(pop %d)", &n)
+			for i := 0; i < n && len(s.liveMarks) > 0; i++ {
+				s.live = s.live[:s.liveMarks[len(s.liveMarks)-1]]
+				s.liveMarks = s.liveMarks[:len(s.liveMarks)-1]
+				s.liveVars = s.liveVars[:s.varMarks[len(s.varMarks)-1]]
+				s.varMarks = s.varMarks[:len(s.varMarks)-1]
+			}
+		case strings.HasPrefix(ln, "(check-sat"), strings.HasPrefix(ln, "(get-value"), strings.HasPrefix(ln, "(set-option"):
+		default:
+			s.live = append(s.live, ln)
+		}
+	}
+}
+
 func (s *Solver) send(str string) {
+	s.record(str)
 	if s.Log != nil {
 		io.WriteString(s.Log, str)
 	}
@@ -117,6 +158,7 @@ func (s *Solver) BeginPath() {
 	s.depth = 1
 	s.defined = map[int32]bool{}
 	s.declaredA = map[int32]bool{}
+	s.scoped, s.scopedA, s.marks = nil, nil, nil
 }
 
 func (s *Solver) EndPath() {
@@ -187,6 +229,7 @@ func (s *Solver) define(t *term.T) {
 		switch n.Op {
 		case term.OVar:
 			fmt.Fprintf(b, "(declare-const t%d %s) ; %s\n", n.ID, sortOf(n.W), n.Name)
+			s.liveVars = append(s.liveVars, n)
 			continue
 		case term.OSelect:
 			if !s.declaredA[n.Arr.ID] {
@@ -300,8 +343,192 @@ func (s *Solver) checkSat() Result {
 		s.NUnsat++
 		return Unsat
 	}
+	if s.Err != nil || s.Kind != "z3" {
+		s.NUnknown++
+		return Unknown
+	}
+	// the incremental solver gave up within its short budget: ask the portfolio
+	t1 := time.Now()
+	r, model := s.escalate()
+	s.EscTime += time.Since(t1)
+	s.Time += time.Since(t1)
+	s.Escalated++
+	switch r {
+	case Unsat:
+		s.NUnsat++
+		return Unsat
+	case Sat:
+		// pin the inputs so that the live solver can produce the same model cheaply
+		var sb strings.Builder
+		for _, v := range s.liveVars {
+			if val, ok := model[v.ID]; ok {
+				if v.W == 0 {
+					if val != 0 {
+						fmt.Fprintf(&sb, "(assert t%d)\n", v.ID)
+					} else {
+						fmt.Fprintf(&sb, "(assert (not t%d))\n", v.ID)
+					}
+				} else {
+					fmt.Fprintf(&sb, "(assert (= t%d %s))\n", v.ID, bvConst(v.W, val))
+				}
+			}
+		}
+		s.send(fmt.Sprintf("(set-option :timeout %d)\n", s.TimeoutMs))
+		s.send(sb.String())
+		s.send("(check-sat)\n")
+		line = s.readLine()
+		for line == "" && s.Err == nil {
+			line = s.readLine()
+		}
+		s.send(fmt.Sprintf("(set-option :timeout %d)\n", s.FastMs))
+		if line == "sat" {
+			s.NSat++
+			return Sat
+		}
+		if line == "unsat" && s.Err == nil {
+			s.Err = fmt.Errorf("solver disagreement: portfolio model rejected by z3")
+		}
+	}
 	s.NUnknown++
 	return Unknown
+}
+
+type escResult struct {
+	who   string
+	r     Result
+	model map[int32]uint64
+}
+
+// escalate decides the currently asserted formula with several solvers
+// started in parallel on a self-contained script; first definite answer wins.
+func (s *Solver) escalate() (Result, map[int32]uint64) {
+	var sb strings.Builder
+	for _, ln := range s.live {
+		if strings.HasPrefix(ln, "(push") {
+			continue
+		}
+		sb.WriteString(ln)
+	}
+	sb.WriteString("(check-sat)\n")
+	if len(s.liveVars) > 0 {
+		sb.WriteString("(get-value (")
+		for _, v := range s.liveVars {
+			fmt.Fprintf(&sb, "t%d ", v.ID)
+		}
+		sb.WriteString("))\n")
+	}
+	body := sb.String()
+	type cfg struct {
+		name string
+		args []string
+		pre  string
+	}
+	cfgs := []cfg{
+		{"cvc5-bv-as-int", []string{"cvc5", "--lang=smt2", "--produce-models", "--solve-bv-as-int=sum"}, "(set-logic ALL)\n"},
+		{"z3-new", []string{"z3-new", "-in", "-smt2"}, "(set-option :produce-models true)\n"},
+		{"cvc5", []string{"cvc5", "--lang=smt2", "--produce-models"}, "(set-logic QF_ABV)\n"},
+		{"z3-oneshot", []string{"/usr/bin/z3", "-in", "-smt2"}, "(set-option :produce-models true)\n"},
+	}
+	ctx, cancel := context.WithTimeout(context.Background(), time.Duration(s.TimeoutMs)*time.Millisecond)
+	defer cancel()
+	ch := make(chan escResult, len(cfgs))
+	for _, c := range cfgs {
+		go func(c cfg) {
+			cmd := exec.CommandContext(ctx, c.args[0], c.args[1:]...)
+			cmd.Stdin = strings.NewReader(c.pre + body)
+			out, _ := cmd.Output()
+			txt := string(out)
+			res := escResult{who: c.name, r: Unknown}
+			first := strings.TrimSpace(txt)
+			if i := strings.Index(first, "\n"); i >= 0 {
+				first = strings.TrimSpace(first[:i])
+			}
+			if strings.Contains(txt, "(error") && first != "unsat" {
+				ch <- res
+				return
+			}
+			switch first {
+			case "unsat":
+				res.r = Unsat
+			case "sat":
+				res.r = Sat
+				rest := txt[strings.Index(txt, "sat")+3:]
+				res.model = parseModel(rest)
+			}
+			ch <- res
+		}(c)
+	}
+	if d := os.Getenv("SSE_ESCDUMP"); d != "" {
+		os.MkdirAll(d, 0o755)
+		os.WriteFile(fmt.Sprintf("%s/esc%d_%d.smt2", d, os.Getpid(), s.Escalated), []byte(body), 0o644)
+	}
+	for i := 0; i < len(cfgs); i++ {
+		r := <-ch
+		if r.r != Unknown {
+			if s.EscWins == nil {
+				s.EscWins = map[string]int{}
+			}
+			s.EscWins[r.who]++
+			return r.r, r.model
+		}
+	}
+	return Unknown, nil
+}
+
+func parseModel(txt string) map[int32]uint64 {
+	m := map[int32]uint64{}
+	toks := tokenize(txt)
+	i := 0
+	if i < len(toks) && toks[i] == "(" {
+		i++
+	}
+	for i < len(toks) && toks[i] == "(" {
+		i++
+		if i >= len(toks) {
+			break
+		}
+		name := toks[i]
+		i++
+		var v uint64
+		if i < len(toks) && toks[i] == "(" {
+			if i+2 < len(toks) && strings.HasPrefix(toks[i+2], "bv") {
+				v, _ = strconv.ParseUint(toks[i+2][2:], 10, 64)
+			}
+			d := 0
+			for i < len(toks) {
+				if toks[i] == "(" {
+					d++
+				} else if toks[i] == ")" {
+					d--
+					if d == 0 {
+						i++
+						break
+					}
+				}
+				i++
+			}
+		} else if i < len(toks) {
+			tk := toks[i]
+			switch {
+			case tk == "true":
+				v = 1
+			case strings.HasPrefix(tk, "#x"):
+				v, _ = strconv.ParseUint(tk[2:], 16, 64)
+			case strings.HasPrefix(tk, "#b"):
+				v, _ = strconv.ParseUint(tk[2:], 2, 64)
+			}
+			i++
+		}
+		if strings.HasPrefix(name, "t") {
+			if id, err := strconv.Atoi(name[1:]); err == nil {
+				m[int32(id)] = v
+			}
+		}
+		if i < len(toks) && toks[i] == ")" {
+			i++
+		}
+	}
+	return m
 }
 
 // Check decides path ∧ extra... (extras are not kept).
